@@ -25,6 +25,23 @@ PROFILES = [
 ]
 
 HAND = {
+    'hand_factor_reassigned': '''@fp.fpy
+def hand_factor_reassigned(x: fp.Real, y: fp.Real, xs: list[fp.Real], k: fp.Real):
+    acc = 0
+    for e in xs:
+        acc = acc * 2 + e
+        k = k + 1
+    n = 0
+    for e in xs:
+        n = n + e
+        k = 1
+    return (acc, n, k)''',
+    'hand_enumerate_capture': '''@fp.fpy
+def hand_enumerate_capture(x: fp.Real, y: fp.Real, xs: list[fp.Real], k: fp.Real):
+    ws = [0, 1, 2]
+    a = [sum([e * i for i in ws]) for i, e in enumerate(xs)]
+    b = [sum([p * q for q in ws]) + p for p, q in zip(xs, xs)]
+    return (a, b)''',
     'hand_mutate_iter': '''@fp.fpy
 def hand_mutate_iter(x: fp.Real, y: fp.Real, xs: list[fp.Real], k: fp.Real):
     acc = 0
@@ -142,6 +159,10 @@ def configs(tier: str):
         out.append((f'split[{k},PEEL]', lambda f, k=k: S.split(f, k), None))
         out.append((f'split[{k},STRICT]', lambda f, k=k: S.split(f, k, strategy=SplitLoopStrategy.STRICT), _len_multiple(k)))
     out.append(('split[2,PEEL,where=0]', lambda f: S.split(f, 2, 0), None))
+    # a variable factor: the parameter k (1..3 in every input vector)
+    out.append(("split['k',PEEL]", lambda f: S.split(f, 'k'), None))
+    out.append(("split['k',STRICT]", lambda f: S.split(f, 'k', strategy=SplitLoopStrategy.STRICT),
+                lambda args: len(args[2]) % int(args[3]) == 0))
     out.append(('elim_iter', lambda f: S.elim_iter(f), None))
     out.append(('elim_iter[zip]', lambda f: S.elim_iter(f, enable_enumerate=False), None))
     out.append(('fuse', lambda f: S.fuse(f), None))
